@@ -66,6 +66,20 @@ class Walker:
         self.snapshot = None
         self.disp = None
 
+    def single_unshared_fd(self, h):
+        """the fds of a source whose (un)registration is ONE poller call (ping, channel, composite with one sub-source and no Timer) when
+        nobody else uses that fd: a failed call then changes nothing and the source's state stays known"""
+        sp = self.spec.get(h)
+        if not sp or h in self.ctimer:
+            return None
+        if sp[2] in ("ping", "chan"):
+            fd = int(sp[-1])
+            return fd if len(self.fd_users.get(fd, ())) <= 1 else None
+        if sp[2] == "comp" and sp[4] == "1":
+            fd = int(sp[5])
+            return fd if len(self.fd_users.get(fd, ())) <= 1 else None
+        return None
+
     def excuse(self, h, why):
         self.excused.add(h)
         self.excuse_why.setdefault(h, set()).add(why)
@@ -309,13 +323,23 @@ class Walker:
                     if self.in_dispatch and self.snapshot is not None:
                         self.timer[h]["rearmed_in_batch"] = self.disp_no
             elif res in (2, 3):
-                self.excuse(h, "register-failed")
+                if h in self.live and self.single_unshared_fd(h) is not None:
+                    pass      # e.g. enable() of a source that is already enabled (EEXIST): nothing may change (C15), it stays judged
+                else:
+                    self.excuse(h, "register-failed")
         elif op == 5:
             if h in self.dead and res != 1:
                 self.fail("C06", "token-alive", "update() with the token of removed source %d returned %d instead of InvalidToken" % (h, res))
             if res == 0 and h in self.live:
                 if insider:
                     self.pending_self.append(("undisabled", h))
+                if h in self.disabled and not insider and self.single_unshared_fd(h) is not None:
+                    # the poller cannot modify an fd it does not hold: update() of a disabled fd-backed source can only answer Ok if it
+                    # registered the fd again - without enable()
+                    self.fail("C16", "disabled-reregistered", "update() of the disabled source %d returned Ok: its fd was registered with the OS poller again "
+                              "without enable()" % h)
+                    self.fail("C07", "update-reenables", "update() of the disabled source %d returned Ok and registered it again: only enable() may end "
+                              "the disabled interval" % h)
                 if h in self.disabled:
                     self.updated_while_disabled.add(h)
                     if self.kind.get(h) == "comp":
